@@ -26,7 +26,8 @@ CBMC_FLAGS = ['--unwinding-assertions', '--bounds-check', '--pointer-check', '--
 BASE_OPTS = ['-DCPPPARSER', '-D__STDC__=1', '-D__cplusplus=201103L', '-S' + os.path.join(lower.REPO, 'parser-inc'), '-module', 'm', '-library', 'l']
 OPTION_SETS = {
     # wrappers are callable from outside the generated file only with -fnames; the other sets are compile-checked
-    'quick': [('c_fnames', ['-c', '-fnames']), ('c_string_fnames', ['-c', '-string', '-fnames']), ('c', ['-c'])],
+    'quick': [('c_fnames', ['-c', '-fnames']), ('c_string_fnames', ['-c', '-string', '-fnames']), ('c', ['-c']),
+              ('c_promisc_fnames', ['-c', '-promiscuous', '-fnames'])],
     'thorough': [('c_fnames', ['-c', '-fnames']), ('c_string_fnames', ['-c', '-string', '-fnames']), ('c', ['-c']),
                  ('c_promisc_fnames', ['-c', '-promiscuous', '-fnames']), ('c_string', ['-c', '-string']),
                  ('c_fnames_fptrs', ['-c', '-fnames', '-fptrs']), ('c_fnames_uniq', ['-c', '-fnames', '-unique-names']),
